@@ -1,7 +1,9 @@
 """C43 Results do not depend on the integer backend (gmp / gmpxx / boostmp)."""
 import json
 import os
+import select
 import sys
+import time
 
 sys.path.insert(0, os.path.join(os.path.dirname(os.path.abspath(__file__)), ".."))
 from pbt import engine
@@ -12,11 +14,55 @@ VARIANTS = ("main", "gmpxx", "boostmp")
 EXPECT_NAME = {"main": "gmp", "gmpxx": "gmpxx", "boostmp": "boostmp"}
 
 
+class PDriver(Driver):
+    """Driver with the request split into send / receive so that the three backends work concurrently"""
+
+    def send(self, program):
+        if self.p is None:
+            self.start()
+        self._prog = program
+        try:
+            self.p.stdin.write((program + "\n").encode("latin-1"))
+            self.p.stdin.flush()
+        except (BrokenPipeError, OSError):
+            rc = self.p.wait()
+            err = self._stderr_tail()
+            self.stop()
+            self.restarts += 1
+            raise DriverCrash(program, err, rc)
+
+    def recv(self, timeout=None):
+        program = self._prog
+        deadline = time.time() + (timeout or self.timeout)
+        fd = self.p.stdout.fileno()
+        while b"\n" not in self.buf:
+            left = deadline - time.time()
+            if left <= 0:
+                self.stop()
+                self.restarts += 1
+                raise DriverTimeout(program)
+            r, _, _ = select.select([fd], [], [], min(left, 1.0))
+            if r:
+                chunk = os.read(fd, 1 << 20)
+                if not chunk:
+                    rc = self.p.wait()
+                    err = self._stderr_tail()
+                    self.stop()
+                    self.restarts += 1
+                    raise DriverCrash(program, err, rc)
+                self.buf += chunk
+        line, _, self.buf = self.buf.partition(b"\n")
+        res = json.loads(line.decode("latin-1"))
+        if isinstance(res, dict) and "protocol_error" in res:
+            raise RuntimeError("protocol error: %s in %s" % (res["protocol_error"], program[:300]))
+        return res
+
+
 class Trio:
     """three drivers behind the interface the engine expects of `Check.drv` (stop / restarts)"""
 
     def __init__(self, exe, timeout):
-        self.d = {v: Driver(v, exe, timeout) for v in VARIANTS}
+        self.d = {v: PDriver(v, exe, timeout) for v in VARIANTS}
 
     def stop(self):
         for d in self.d.values():
@@ -56,7 +102,7 @@ class C43(Check):
                    "operands are kept inside the GMP-documented domain of each wrapped function (outside it GMP itself aborts)",
                    "the return value of probab_prime_p is only specified up to zero / non-zero",
                    "FLINT and Piranha are not installed: only gmp, gmpxx, boostmp are compared"]
-    tiers = {"quick": {"examples": 1300}, "thorough": {"examples": 60000}}
+    tiers = {"quick": {"examples": 900}, "thorough": {"examples": 60000}}
     timeout = 40.0
     case_timeout = 150
     min_nontrivial = 200
@@ -94,18 +140,23 @@ class C43(Check):
                 self.skip("known:gcdext_zero_zero", 2)
         text = engine.prog(stmts)
         res = {}
-        for v in VARIANTS:
-            try:
-                res[v] = self.drv.d[v].run(text)
-            except DriverTimeout:
-                # slowness is never a violation; all drivers restart so that they stay in step
-                self.skip("timeout:" + v)
-                self.drv.stop()
-                return
-            except DriverCrash as e:
-                self.drv.stop()
-                raise Violation("driver of backend %s crashed (rc=%s): %s" % (v, e.rc, crash_signature(e.stderr)),
-                                {"variant": v, "stderr": e.stderr[-3000:], "program": text[:4000]})
+        phase = "send"
+        v = None
+        try:
+            for v in VARIANTS:
+                self.drv.d[v].send(text)
+            phase = "recv"
+            for v in VARIANTS:
+                res[v] = self.drv.d[v].recv()
+        except DriverTimeout:
+            # slowness is never a violation; all drivers restart so that they stay in step
+            self.skip("timeout:" + v)
+            self.drv.stop()
+            return
+        except DriverCrash as e:
+            self.drv.stop()
+            raise Violation("driver of backend %s crashed (rc=%s): %s" % (v, e.rc, crash_signature(e.stderr)),
+                            {"variant": v, "stderr": e.stderr[-3000:], "program": text[:4000]})
         n = len(stmts)
         for v in VARIANTS:
             if len(res[v]) != n:
